@@ -236,7 +236,7 @@ func registerStrings(p *Program) {
 	always("internal/abi.NoEscape", func(e *Exec, a []Value) Value { return a[0] })
 	always("(*strings.Builder).copyCheck", func(e *Exec, a []Value) Value { return nil })
 	always("os.Getenv", func(e *Exec, a []Value) Value { return Str{} })
-	always("os.Getwd", func(e *Exec, a []Value) Value { return Tuple{Str{S: "/cwd/w"}, Iface{}} })
+	always("os.Getwd", func(e *Exec, a []Value) Value { return Tuple{Str{S: e.cwd()}, Iface{}} })
 	always("github.com/go-openapi/spec.MustLoadSwagger20Schema", func(e *Exec, a []Value) Value { return e.lazyMeta("swagger20") })
 	always("github.com/go-openapi/spec.MustLoadJSONSchemaDraft04", func(e *Exec, a []Value) Value { return e.lazyMeta("draft04") })
 	always("os.IsPathSeparator", func(e *Exec, a []Value) Value { return sym.Eq(a[0].(*T), sym.BVC(8, '/')) })
